@@ -101,6 +101,9 @@ fn is_moderately_nested(cursor: Cursor<'_>) -> bool {
 
     let mut levels = vec![cursor];
     let mut run = 0;
+    // Closure heads (`|a| |b| ..`) and assignments (`a = b = ..`) nest to the right without
+    // any delimiter.
+    let mut right_nesting = 0;
     while let Some(cursor) = levels.pop() {
         let Some((tt, next)) = cursor.token_tree() else {
             continue;
@@ -113,10 +116,15 @@ fn is_moderately_nested(cursor: Cursor<'_>) -> bool {
                 }
                 run = 0;
             }
-            proc_macro2::TokenTree::Punct(_) => run += 1,
+            proc_macro2::TokenTree::Punct(p) => {
+                run += 1;
+                if matches!(p.as_char(), '|' | '=') {
+                    right_nesting += 1;
+                }
+            }
             _ => run = 0,
         }
-        if levels.len() > LIMIT || run > LIMIT {
+        if levels.len() > LIMIT || run > LIMIT || right_nesting > 4 * LIMIT {
             return false;
         }
     }
